@@ -385,7 +385,7 @@ def copy_class(T, last):
         g = governing(T, p)
         if g is not None and g["type"] == "volume" and any(m["type"] == "bind" and is_prefix(m["dst"], p) for m in T):
             return "shadowed-by-volume"
-    if op == "r2l" and last["ro"] and last["dec"]["k"] == "ctrlink":
+    if op == "r2l" and last["ro"] and last["dec"]["k"] == "ctrcopy":
         return "read-only-link-made-in-container"
     return "%s%s" % (last["dec"]["k"], ":read-only" if last["ro"] else "")
 
@@ -398,7 +398,10 @@ def delta(before, after, skips):
     return added, removed
 
 
-def same_dec(exp, found):
+def same_dec(exp, found, cls=""):
+    if cls == "read-only-link-made-in-container" and len(found) == 1 and found[0]["k"] == "ctrlink":
+        # the link is judged by its effect (content clause), not by the command
+        found = [dict(found[0], k="ctrcopy")]
     if exp["k"] == "stream":
         return len(found) == 1 and found[0]["k"] == "stream"
     if len(found) != 1 or found[0]["k"] != exp["k"]:
@@ -420,7 +423,7 @@ def check_copy(ctx, rig, T, last, obs, label, detail):
         return False
     found, streams = CB.decision_of(rig.world, obs["events"])
     ok = True
-    if not same_dec(last["dec"], found):
+    if not same_dec(last["dec"], found, cls):
         ok = False
         ctx.violation("%s:decision:%s" % (op, cls), dict(detail, found=found),
                       "%s: specification chooses %s(%s, %s), the connector did %s" % (
